@@ -67,7 +67,8 @@ Definition core_sids (d : doc) : list str :=
 Record senv := mkEnv {
   e_pg : str; e_pm : str; e_pr : str; e_pgrp : str; e_dot : str;
   e_lower : str; e_upper : str; e_zero : str; e_minf : str; e_pinf : str;
-  e_wide : bool }.
+  e_wide : bool;
+  e_genes : bool }.                    (* the reader's sid_map also holds the gene products *)
 
 (* ------------------------------------------------------------------ small library *)
 Definition is_letter (c : Z) : bool := ((97 <=? c) && (c <=? 122)) || ((65 <=? c) && (c <=? 90)).
@@ -333,10 +334,10 @@ Section Doc.
            (match lookup (r_id r) co with Some q => obj_red q | None => 0%Q end)
            (r_subsystem r) (r_notes r) (r_annot r), snd rr).
 
-  (* sid_map: compartments, species, reactions, groups -- a later list overrides an earlier one; gene products
-     are not in it *)
+  (* sid_map: compartments, species, reactions, [gene products,] groups -- a later list overrides an earlier one *)
   Definition read_member (d : doc) (idref : str) : result (list (Z * str)) :=
     if str_mem idref (map dg_id (d_groups d)) then Ok []                       (* unsupported type code: skipped *)
+    else if e_genes E && str_mem idref (map (fun g => fst (fst g)) (d_gps d)) then Ok [(0, dec_g idref)]
     else if str_mem idref (map dr_id (d_rxns d)) then Ok [(2, dec_r idref)]
     else if str_mem idref (map sp_id (d_species d)) then Ok [(1, dec_m idref)]
     else if str_mem idref (map fst (d_comps d)) then Ok []
@@ -439,11 +440,14 @@ Section Doc.
     (q_is_zero (r_obj r) || num_ok (r_obj r)) &&
     match snd rr with Some t => rule_ok gids t | None => true end.
 
-  Definition member_ok (mids rids : list str) (p : Z * str) : bool :=
-    ((fst p =? 1) && str_mem (snd p) mids) || ((fst p =? 2) && str_mem (snd p) rids).
+  (* a member is a metabolite, a reaction or -- when the reader knows gene products -- a gene of the model; the
+     prefixes of genes and groups coincide (G_), so a gene member must not be written like one of the groups *)
+  Definition member_ok (mids rids gids grpids : list str) (p : Z * str) : bool :=
+    ((fst p =? 1) && str_mem (snd p) mids) || ((fst p =? 2) && str_mem (snd p) rids) ||
+    ((fst p =? 0) && e_genes E && str_mem (snd p) gids && negb (str_mem (enc_g (snd p)) (map enc_grp grpids))).
 
-  Definition group_ok (mids rids : list str) (g : agroup) : bool :=
-    sid_ok (e_pgrp E) (gr_id g) && forallb (member_ok mids rids) (gr_members g).
+  Definition group_ok (mids rids gids grpids : list str) (g : agroup) : bool :=
+    sid_ok (e_pgrp E) (gr_id g) && forallb (member_ok mids rids gids grpids) (gr_members g).
 
   Definition sbml_ok (c : cfg) (m : smodel) : bool :=
     let mids := map m_id (sm_mets m) in
@@ -452,11 +456,11 @@ Section Doc.
     forallb met_ok (sm_mets m) && nodupb mids &&
     forallb (fun g => gene_sid_ok (g_id g)) (sm_genes m) && nodupb gids &&
     forallb (rxn_ok c mids gids) (sm_rxns m) && nodupb rids &&
-    forallb (group_ok mids rids) (sm_groups m) && nodupb (map gr_id (sm_groups m)).
+    forallb (group_ok mids rids gids (map gr_id (sm_groups m))) (sm_groups m) && nodupb (map gr_id (sm_groups m)).
 End Doc.
 
 (* well-formedness of the regenerated constants: prefixes are non-empty, plain, start with a letter and the
-   prefixes of species, reactions and groups start differently; the five shared parameter ids are pairwise
+   prefixes of species, reactions and groups start differently, and so do those of genes and species / reactions; the five shared parameter ids are pairwise
    distinct, non-empty and none of them starts like a reaction id *)
 Definition head_of (s : str) : Z := match s with c :: _ => c | [] => 0 end.
 Definition prefix_ok (p : str) : bool := forallb is_plain p && is_letter (head_of p).
@@ -464,6 +468,7 @@ Definition env_ok (E : senv) : bool :=
   prefix_ok (e_pg E) && prefix_ok (e_pm E) && prefix_ok (e_pr E) && prefix_ok (e_pgrp E) &&
   negb (head_of (e_pm E) =? head_of (e_pr E)) && negb (head_of (e_pm E) =? head_of (e_pgrp E)) &&
   negb (head_of (e_pr E) =? head_of (e_pgrp E)) &&
+  negb (head_of (e_pg E) =? head_of (e_pm E)) && negb (head_of (e_pg E) =? head_of (e_pr E)) &&
   nodupb [e_lower E; e_upper E; e_zero E; e_minf E; e_pinf E] &&
   forallb (fun s => negb (is_nil s) && negb (head_of s =? head_of (e_pr E)))
           [e_lower E; e_upper E; e_zero E; e_minf E; e_pinf E].
